@@ -676,6 +676,9 @@ func genC01(r *simrt.Rand, tier string, idx uint64) Workload {
 	default:
 		w.Shape = "mix"
 		nt := 2 + r.Intn(3)
+		if tier == "thorough" && r.Intn(4) == 0 {
+			nt = 5 + r.Intn(4) // long random mixes: up to 8 caller tasks
+		}
 		for t := 0; t < nt; t++ {
 			n := 1 + r.Intn(6)
 			if tier != "thorough" && n > 4 {
